@@ -75,6 +75,8 @@ class LinearRegression:
         a = _obj(X)
         yv = list(_obj(y).ravel())
         rows = [list(a[i, :]) for i in range(a.shape[0])]
+        if len(rows) != len(yv):
+            raise ValueError("Found input variables with inconsistent numbers of samples: [%d, %d]" % (len(rows), len(yv)))
         if self.fit_intercept:
             rows = [[1] + r for r in rows]
         for r in rows:
